@@ -309,7 +309,7 @@ VCLAUSE(discrete, 40, 10000, 200000, "counts beyond the mean plus one (continued
 	if(s.coin())
 	{
 		unsigned n = s.coin() ? (unsigned) s.range(0, 30) : (unsigned) s.range(0, 170);
-		double p   = s.pick({6, 1, 1, 1}) == 0 ? s.unit() : (s.coin() ? (s.coin() ? 0.0 : 1.0) : std::pow(10.0, s.uniform(-12, -1)));
+		double p   = s.pick({6, 1, 1, 1}) == 0 ? s.unit() : (s.coin() ? (s.coin() ? 0.0 : 1.0) : (s.coin() ? std::pow(10.0, s.uniform(-12, -1)) : 1.0 - std::pow(10.0, s.uniform(-12, -1))));
 		if(p == 0 || p == 1 || n > 100)
 			c.nt();
 		c.cls("binomial");
@@ -339,6 +339,14 @@ VCLAUSE(discrete, 40, 10000, 200000, "counts beyond the mean plus one (continued
 			}
 		}
 		VCLOSE(c, "binomial_sums_to_one", (double) sum, 1.0, 64.0 * (n + 1) * EPS, "sum of PMF_Binomial over k=0..n");
+		// more successes than trials: no mass, everything accumulated
+		{
+			unsigned kb = n + 1 + (unsigned) s.range(0, 5);
+			double pmb = 1, cdb = 0;
+			VMUST_RETURN("PMF/CDF_Binomial beyond the number of trials", pmb = PMF_Binomial(n, p, kb); cdb = CDF_Binomial(n, p, kb));
+			VCHECK(pmb == 0.0, "PMF_Binomial(" << n << "," << p << "," << kb << ")=" << pmb << " for more successes than trials");
+			VCLOSE(c, "binomial_cdf_beyond_trials", cdb, 1.0, 64.0 * (n + 1) * EPS, "CDF_Binomial(" << n << "," << p << "," << kb << ") for more successes than trials");
+		}
 	}
 	else
 	{
@@ -379,8 +387,9 @@ VCLAUSE(quantiles, 20, 10000, 200000, "p within 1e-3 of 0 or 1")
 {
 	Src& s = c.s;
 	double p;
-	switch(s.pick({2, 2, 2}))
+	switch(s.pick({20, 20, 20, 1}))
 	{
+		case 3: p = 0.5; break;
 		case 0: p = s.uniform(0.001, 0.999); break;
 		case 1: p = std::pow(10.0, s.uniform(-12, -3)); break;
 		default: p = 1.0 - std::pow(10.0, s.uniform(-12, -3)); break;
@@ -408,7 +417,7 @@ VCLAUSE(quantiles, 20, 10000, 200000, "p within 1e-3 of 0 or 1")
 	}
 	else
 	{
-		unsigned k = s.pick({1, 3, 1}) == 0 ? 0u : (s.coin() ? (unsigned) s.range(1, 30) : (unsigned) s.range(31, 400));
+		unsigned k = s.pick({1, 3, 1}) == 0 ? 0u : (s.coin() ? (unsigned) s.range(1, 30) : (s.chance(0.2) ? (unsigned) s.range(97, 102) : (unsigned) s.range(31, 400)));
 		c.cls("Inv_CDF_Poisson");
 		VLOG(c, "Inv_CDF_Poisson(" << k << "," << p << ")");
 		double mu = 0;
